@@ -45,7 +45,7 @@ def scenarios_for(model, tier):
         return out
     if model == "future_deque":
         from mirproto import future_deque_model as FD
-        return [(FD.prog_name(sc), ["--model", "future_deque", "--programs", json.dumps(sc)]) for sc in (FD.QUICK if tier == "quick" else FD.THOROUGH)]
+        return [(FD.prog_name(sc), ["--model", "future_deque", "--programs", json.dumps(sc)]) for sc in (FD.QUICK if tier == "quick" else FD.THOROUGH + FD.generated_family())]
     raise ValueError(model)
 
 
